@@ -129,13 +129,12 @@ package risc
 // meaning is established by the contracts verified in package comp).
 // committedRAT holds the architectural value of a register as its newest
 // entry; transactionRAT holds the uncommitted writes of a register in ring
-// order (rank 0 = most recent). "Youngest by tag" coincides with "most
-// recently written" when tags were written in non-decreasing order per
-// register (monoTags); out-of-order tags are the known finding F11.
+// order (rank 0 = most recent). Results arrive in completion order, not in
+// program order: TransactionRATWrite keeps the youngest write BY TAG the most
+// recent entry (F11, fixed), which is what commit and plain reads take.
 
 //@ spec func wfCtxRAT(ctx *Context) bool = ctx != nil && ctx.committedRAT != nil && ctx.transactionRAT != nil && comp.wfRAT(ctx.committedRAT) && comp.wfRAT(ctx.transactionRAT) \
 //@    && ctx.committedRAT.idx != ctx.transactionRAT.idx && ctx.committedRAT.wrapped != ctx.transactionRAT.wrapped && ctx.committedSequenceID != nil
-//@ spec func monoTags(ctx *Context) bool = forall r RegisterType, i int, i2 int :: comp.validSlot(ctx.transactionRAT, r, i) && comp.validSlot(ctx.transactionRAT, r, i2) && comp.rank(ctx.transactionRAT, r, i) <= comp.rank(ctx.transactionRAT, r, i2) ==> comp.slot(ctx.transactionRAT, r, i).sequenceID >= comp.slot(ctx.transactionRAT, r, i2).sequenceID
 
 //@ func (*Context).TransactionRATWrite
 //@   mode int
@@ -146,32 +145,27 @@ package risc
 //@   -- nothing changes; otherwise the register has an entry afterwards
 //@   ensures old(sequenceID < ctx.committedSequenceID[exe.Register]) ==> (forall r RegisterType :: comp.has(ctx.transactionRAT, r) == old(comp.has(ctx.transactionRAT, r)) && comp.newest(ctx.transactionRAT, r) == old(comp.newest(ctx.transactionRAT, r)))
 //@   ensures !old(sequenceID < ctx.committedSequenceID[exe.Register]) ==> comp.has(ctx.transactionRAT, exe.Register)
-//@   -- results arrive in completion order; the entries that were more recent and carry a greater tag are
-//@   -- written again on top of the new one (F11). Proved here: the table stays well formed, the register
+//@   -- results arrive in completion order; the new write takes its place below the entries that carry a
+//@   -- greater tag (F11). Proved here: the table stays well formed, the register
 //@   -- has an entry, the most recent entry is the new write or one of the re-written younger ones, no other
-//@   -- register and nothing committed changes. That the re-written entries are exactly the younger ones,
-//@   -- in order (monoTags), is exercised by the witness program, not proved.
+//@   -- register and nothing committed changes. The order of the entries BELOW the most recent one (what a
+//@   -- rollback to a tag selects from) is exercised by the witness programs and the exploration, not proved.
 //@   ensures !old(sequenceID < ctx.committedSequenceID[exe.Register]) ==> comp.newest(ctx.transactionRAT, exe.Register).sequenceID >= sequenceID
+//@   -- youngest by tag wins, step by step: the most recent entry of the register afterwards is the old most recent
+//@   -- entry when that one carries a greater tag, and the new write otherwise. By induction over the writes since
+//@   -- the last commit / rollback (both leave the table empty) the most recent entry is the write with the greatest tag
+//@   ensures !old(sequenceID < ctx.committedSequenceID[exe.Register]) && old(comp.has(ctx.transactionRAT, exe.Register) && comp.newest(ctx.transactionRAT, exe.Register).sequenceID > sequenceID) ==> comp.newest(ctx.transactionRAT, exe.Register) == old(comp.newest(ctx.transactionRAT, exe.Register))
+//@   ensures !old(sequenceID < ctx.committedSequenceID[exe.Register]) && !old(comp.has(ctx.transactionRAT, exe.Register) && comp.newest(ctx.transactionRAT, exe.Register).sequenceID > sequenceID) ==> comp.newest(ctx.transactionRAT, exe.Register).sequenceID == sequenceID && comp.newest(ctx.transactionRAT, exe.Register).value == exe.RegisterValue
 //@   ensures forall r RegisterType :: r != exe.Register ==> comp.has(ctx.transactionRAT, r) == old(comp.has(ctx.transactionRAT, r)) && comp.newest(ctx.transactionRAT, r) == old(comp.newest(ctx.transactionRAT, r))
 //@   ensures forall r RegisterType :: comp.has(ctx.committedRAT, r) == old(comp.has(ctx.committedRAT, r)) && comp.newest(ctx.committedRAT, r) == old(comp.newest(ctx.committedRAT, r))
 //@   assigns ctx.transactionRAT.idx[*], ctx.transactionRAT.values[*], ctx.transactionRAT.wrapped[*], all []transactionUnit
-//@   loop 0: invariant len(younger) == _idx0 && (cap(younger) == 0 || (fresh(younger) && !sameArray(younger, _range0))) && allocated(_range0)
-//@   loop 0: invariant forall a :: lo(younger) <= a && a < hi(younger) ==> at(younger, a).sequenceID > sequenceID
-//@   loop 0: invariant wfCtxRAT(ctx) && ctx.transactionRAT == old(ctx.transactionRAT) && ctx.committedRAT == old(ctx.committedRAT)
-//@   loop 0: invariant forall r RegisterType :: comp.has(ctx.transactionRAT, r) == old(comp.has(ctx.transactionRAT, r)) && comp.newest(ctx.transactionRAT, r) == old(comp.newest(ctx.transactionRAT, r))
-//@   loop 0: invariant forall r RegisterType :: comp.has(ctx.committedRAT, r) == old(comp.has(ctx.committedRAT, r)) && comp.newest(ctx.committedRAT, r) == old(comp.newest(ctx.committedRAT, r))
-//@   loop 1: invariant -1 <= i && i < len(younger) && wfCtxRAT(ctx) && ctx.transactionRAT == old(ctx.transactionRAT) && ctx.committedRAT == old(ctx.committedRAT) && comp.has(ctx.transactionRAT, exe.Register)
-//@   loop 1: invariant comp.newest(ctx.transactionRAT, exe.Register).sequenceID >= sequenceID
-//@   loop 1: invariant (cap(younger) == 0 || (fresh(younger) && !sameArray(younger, ctx.transactionRAT.values[exe.Register]))) && (forall a :: lo(younger) <= a && a < hi(younger) ==> at(younger, a).sequenceID > sequenceID)
-//@   loop 1: invariant forall r RegisterType :: r != exe.Register ==> comp.has(ctx.transactionRAT, r) == old(comp.has(ctx.transactionRAT, r)) && comp.newest(ctx.transactionRAT, r) == old(comp.newest(ctx.transactionRAT, r))
-//@   loop 1: invariant forall r RegisterType :: comp.has(ctx.committedRAT, r) == old(comp.has(ctx.committedRAT, r)) && comp.newest(ctx.committedRAT, r) == old(comp.newest(ctx.committedRAT, r))
+//@   loop 0: invariant 0 <= younger && younger <= len(recent) && (forall a :: 0 <= a && a < younger ==> at(recent, lo(recent) + a).sequenceID > sequenceID)
 
 // RATCommit: every register with uncommitted writes takes the value of its
 // most recent write, every other register's architectural value is
-// unchanged, nothing stays uncommitted. Under monoTags (tags in ring order: what
-// the ordered TransactionRATWrite maintains - F11, fixed; its preservation is
-// NOT proved, see undecided_clauses) the most recent write is the one with the
-// greatest tag (last postcondition, conditional on monoTags).
+// unchanged, nothing stays uncommitted. That the most recent write is the one
+// with the greatest tag is the step contract of TransactionRATWrite (by
+// induction over the writes since the table was last emptied).
 //@ func (*Context).RATCommit
 //@   mode int
 //@   requires wfCtxRAT(ctx)
@@ -179,8 +173,6 @@ package risc
 //@   ensures forall r RegisterType :: old(comp.has(ctx.transactionRAT, r)) ==> comp.has(ctx.committedRAT, r) && comp.newest(ctx.committedRAT, r) == old(comp.newest(ctx.transactionRAT, r).value)
 //@   ensures forall r RegisterType :: !old(comp.has(ctx.transactionRAT, r)) ==> comp.has(ctx.committedRAT, r) == old(comp.has(ctx.committedRAT, r)) && comp.newest(ctx.committedRAT, r) == old(comp.newest(ctx.committedRAT, r))
 //@   ensures forall r RegisterType :: !comp.has(ctx.transactionRAT, r)
-//@   -- the committed write is the youngest by tag (program order): holds when tags were written in order
-//@   ensures old(monoTags(ctx)) ==> (forall r RegisterType, i int :: old(comp.validSlot(ctx.transactionRAT, r, i)) ==> old(comp.newest(ctx.transactionRAT, r).sequenceID) >= old(comp.slot(ctx.transactionRAT, r, i).sequenceID))
 //@   -- (F11 residual, fixed) the tag of the committed write is recorded: an older write of the register that completes later is dropped
 //@   ensures forall r RegisterType :: old(comp.has(ctx.transactionRAT, r)) ==> r in ctx.committedSequenceID && ctx.committedSequenceID[r] == old(comp.newest(ctx.transactionRAT, r).sequenceID)
 //@   ensures forall r RegisterType :: !old(comp.has(ctx.transactionRAT, r)) ==> (r in ctx.committedSequenceID) == old(r in ctx.committedSequenceID) && ctx.committedSequenceID[r] == old(ctx.committedSequenceID[r])
